@@ -3,6 +3,7 @@ package sizes
 import (
 	"encoding/json"
 	"fmt"
+	"strings"
 	"sync"
 
 	"github.com/github/git-sizer/git"
@@ -132,7 +133,19 @@ func (p *Path) TreePrefix() string {
 				return p.parent.TreePrefix() + p.relativePath + "/"
 			}
 		case p.relativePath != "":
-			return p.relativePath + "/"
+			// This tree is named directly by a reference or a ROOT
+			// argument. If that name already has the form
+			// `<rev>:<path>`, the entries below it continue the
+			// path; otherwise it is a tree-ish `<rev>`, and the
+			// path starts after a colon.
+			switch {
+			case strings.HasSuffix(p.relativePath, ":"):
+				return p.relativePath
+			case strings.Contains(p.relativePath, ":"):
+				return p.relativePath + "/"
+			default:
+				return p.relativePath + ":"
+			}
 		default:
 			return "???"
 		}
